@@ -228,3 +228,100 @@ func init() {
 		Outside: []string{"Keccak-256 itself (hashing is a declared weak target for SMT)", "anonymous events"},
 	})
 }
+
+func init() {
+	register(&PropSpec{
+		ID:   "C12",
+		Pkgs: []string{"./dig"},
+		Runs: func(tier string) []HRun {
+			var rs []HRun
+			bshapes := [][3]int{{20, 1, 20}, {20, 2, 20}, {32, 1, 32}, {32, 1, 20}, {4, 1, 4}, {4, 2, 1}, {0, 1, 0}, {3, 1, 5}, {20, 0, 0}}
+			if tier == "thorough" {
+				bshapes = append(bshapes, [3]int{32, 3, 32}, [3]int{32, 2, 4}, [3]int{8, 3, 8}, [3]int{1, 1, 1}, [3]int{33, 1, 32})
+			}
+			for op := 0; op < 6; op++ {
+				for _, b := range bshapes {
+					if tier == "quick" && b[0] >= 20 && b[1] > 1 && op > 1 {
+						continue
+					}
+					rs = append(rs, HRun{Pkg: "./dig", Fn: "ZZ_C12_Bytes", Params: []int{op, b[0], b[1], b[2]}, Unwind: 300})
+				}
+				for argi := 0; argi < 5; argi++ {
+					for kind := 0; kind < 2; kind++ {
+						rs = append(rs, HRun{Pkg: "./dig", Fn: "ZZ_C12_Uint64", Params: []int{op, argi, kind}})
+					}
+				}
+				for argi := 0; argi < 4; argi++ {
+					rs = append(rs, HRun{Pkg: "./dig", Fn: "ZZ_C12_Uint256", Params: []int{op, argi}})
+				}
+				for _, sl := range []int{0, 4, 6, 12} {
+					for na := 0; na <= 3; na++ {
+						rs = append(rs, HRun{Pkg: "./dig", Fn: "ZZ_C12_String", Params: []int{op, sl, na}})
+					}
+				}
+			}
+			for op1 := -1; op1 < 4; op1++ {
+				for op2 := 0; op2 < 4; op2++ {
+					for agg := 0; agg < 4; agg++ {
+						for na := 0; na <= 2; na++ {
+							rs = append(rs, HRun{Pkg: "./dig", Fn: "ZZ_C12_Fold", Params: []int{op1, op2, agg, na}})
+						}
+					}
+				}
+			}
+			return rs
+		},
+		Assumptions: []string{
+			"per-filter semantics: field values and byte-string arguments are solver-quantified (hex argument text is built from symbolic bytes); decimal arguments of integer filters are 5 (uint64) / 4 (uint256) boundary constants, the field value is a free 64/256-bit value; string arguments come from a 4-word vocabulary, the field is a symbolic string",
+			"fold and pushdown: filter arguments are concrete constants, the log's topics and address are solver-quantified; eth_getLogs is assumed to return exactly the logs whose address is in the address list (if non-empty) and whose topic0 is in topics[0] (documented JSON-RPC semantics)",
+			"reference filters (filter_ref) are not covered by this check (they need the Postgres model; see C05)",
+		},
+		Bounds: map[string]string{
+			"quick":    "operators x {bytes shapes (field len, #args, arg len) in 9 shapes, uint64 x 5 args x 2 kinds, uint256 x 4 args, strings of 0/4/6/12 bytes x 0..3 args}; fold: op1 in {none,contains,!contains,eq,ne} on an indexed bytes32 input x op2 on log_addr x 4 aggregations x 0..2 address args",
+			"thorough": "14 bytes shapes",
+		},
+		Outside: []string{"value kinds Accept silently leaves unfiltered (eth.Byte, bool, signed ints)", "filter_ref lookups"},
+	})
+}
+
+func init() {
+	register(&PropSpec{
+		ID:   "C07",
+		Pkgs: []string{"./jrpc2"},
+		Runs: func(tier string) []HRun {
+			var rs []HRun
+			limits := []int{1, 2, 3}
+			budget := 1
+			if tier == "thorough" {
+				limits = []int{1, 2, 3, 4}
+				budget = 2
+			}
+			for plan := 0; plan < 12; plan++ {
+				for _, l := range limits {
+					if l > 2 && plan >= 3 && tier == "quick" {
+						continue
+					}
+					rs = append(rs, HRun{Pkg: "./jrpc2", Fn: "ZZ_C07_Get", Params: []int{plan, l, 1, budget}, MaxPaths: 100000})
+					if l <= 2 {
+						rs = append(rs, HRun{Pkg: "./jrpc2", Fn: "ZZ_C07_Get", Params: []int{plan, l, 0, budget}, MaxPaths: 100000})
+					}
+				}
+			}
+			rs = append(rs, HRun{Pkg: "./jrpc2", Fn: "ZZ_C07_HeadHash", Params: []int{0}}, HRun{Pkg: "./jrpc2", Fn: "ZZ_C07_HeadHash", Params: []int{1}})
+			return rs
+		},
+		Assumptions: []string{
+			"the node is cut at (*Client).do (harness/jrpc2/stub.go, compiled natively for replay with the same cut): after a syntactically valid body the decoder fills the destination as contract R1 of DESIGN 3.1 says (pre-sized slices keep pointer fields, null -> nil pointer, shorter/longer batch truncates/appends, absent member leaves the field)",
+			"every decoded value is solver-quantified: block numbers, hashes, parent hashes, transaction/log indices, item block numbers, error codes (0 = no error member), transport failure",
+			"structural corruptions (null result, batch one shorter / one longer, 0 or 2 items instead of 1, block without transactions) are case-split under a budget of 1 (quick) / 2 (thorough) per request",
+			"a log entry always carries its own object (logIndex/address/topics/data not all absent)",
+			"elements repeating the identity of another element of the same answer (same block+logIndex, same block+tx) are excused from the attachment check: de-duplication is accepted behaviour",
+			"HTTP status / undecodable body handling inside do() (net/http, goccy/go-json) is outside: C07-d of the design was dropped, the three checks sit behind library calls that cannot be encoded",
+		},
+		Bounds: map[string]string{
+			"quick":    "12 data plans ({none,headers,blocks} x {none,logs,receipts,traces}); limit 1..3 for block-only plans, 1..2 otherwise; start a free value < 2^62; with and without error members / transport errors",
+			"thorough": "limit 1..4, corruption budget 2",
+		},
+		Outside: []string{"net/http and goccy/go-json themselves (truncated bodies, gzip, non-2xx)", "JSON-RPC id matching (the client never checks ids)"},
+	})
+}
